@@ -280,7 +280,9 @@ func (p c16) run(c *core.C, cs c16Case) {
 
 // absentRoles: role names that are not present, incl. proper prefixes and extensions of the present one.
 func absentRoles(role string) []string {
-	out := []string{"", role[:1], role[:len(role)-1], role + "x", strings.ToUpper(role)}
+	// (also the member-name prefix written out or half written out in front of the role: the member asked for would
+	// be _gpg_gpgorigin, _gpggorigin, ... - none of which exists)
+	out := []string{"", role[:1], role[:len(role)-1], role + "x", strings.ToUpper(role), "_gpg" + role, "gpg" + role, "g" + role, "_" + role, "p" + role, " " + role, role + " ", role + "/"}
 	for _, r := range c16Roles {
 		if r != role {
 			out = append(out, r)
